@@ -94,8 +94,14 @@ CHECKS["C16"] = dict(level="fault_enumeration", engine="E3 grid",
    note="ACL refusals are injected errors (token resolution and vetRegisterWithACL are not modelled); read-side ACL filtering of the listings, check output deferral timers (CheckUpdateInterval>0) and the ae.StateSyncer timer loop are not explored. Go map iteration order inside SyncChanges is sampled by the enumeration.",
    design="§3 C16")
 
+CHECKS["C17"] = dict(level="model_checking", engine="E1 opseq-BFS",
+   technique="explicit-state BFS whose transitions are peer stream updates handled by the real peerstream replication code (processResponse / handleUpdateService / handleUpsertExportedServiceList) over a real FSM; snapshot-equality, pruning, non-interference and exporter-side oracles",
+   text="Every sequence (depth 3 quick, 4 thorough; from four seeds holding local rows, other-peer rows and imported rows that collide by node, service and check name, with and without wildcard exported-services entries) of exported-service updates for peers p1, p2 and services a, b (11 snapshot shapes: none, one instance with/without service and node checks, status changes, instance moved to another node, two nodes, two instances on one node, port change, node address change), exported-service-list updates (every subset) and exported-services config changes. The messages are built by the exporter's own makeServiceResponse / makeExportedServiceListResponse and handled by the importer's real code with FSM.Apply as raft. After every import: CheckServiceNodes(service, peer) equals the snapshot (nodes, instances, checks); the peer's other services keep their instances; services missing from an exported list have no rows; the index-masked dump of all 36 tables minus that peer's node/service/check rows is byte-identical before and after (local cluster and other peers untouched). On every state: no imported node without services, no imported check without its node, and ExportedServicesForPeer(p) only contains names an exported-services entry gives to p (a wildcard covers this cluster's own services only).",
+   note="States are identified by their index-masked dump because the replication code walks Go maps (no command of this alphabet reads an index); the merge audit checks that abstraction at run time. Node-level data of a node shared by two services of one peer is compared as 'snapshot node checks present'. Trust bundle / server address messages, sidecar-proxy synthetic names and the streaming subscription side of the exporter are not explored.",
+   design="§3 C17")
+
 _WIP = "not claimed yet: the check described in DESIGN.md for this property is not built at this commit (work in progress, not a statement that model checking cannot apply)"
-NOT_APPLICABLE = [dict(property_id=p, reason=_WIP) for p in ("C11", "C17", "C18")]
+NOT_APPLICABLE = [dict(property_id=p, reason=_WIP) for p in ("C11", "C18")]
 
 def main():
     checks = []
